@@ -645,13 +645,13 @@ func c10Chain(c *fw.Ctx, id string, depth int) {
 		w := c10NewWorld()
 		src := fmt.Sprintf("(do (def runs (atom 0)) (def chain (fn (n) (do (swap! runs inc) (if (< n 1) 0 (+ 1 @(future (chain (- n 1)))))))) (list (chain %d) @runs))", depth)
 		var o hx.Outcome
-		ctx, cancel := context.WithTimeout(context.Background(), 120*time.Second)
+		ctx, cancel := context.WithTimeout(context.Background(), 40*time.Second)
 		defer cancel()
-		ok := fw.WithTimeout(150*time.Second, func() { o = hx.EvalText(ctx, src, w.env) })
+		ok := fw.WithTimeout(60*time.Second, func() { o = hx.EvalText(ctx, src, w.env) })
 		c.Count("future_chains", 1)
 		c.Max("max_future_chain_depth", int64(depth))
 		if !ok {
-			c.Violate(fw.Violation{Key: "R7:blocked-chain", What: "a chain of nested futures did not finish within 150 s", Detail: fw.GoroutineDump()})
+			c.Violate(fw.Violation{Key: "R7:blocked-chain", What: "a chain of nested futures did not finish within 60 s", Detail: fw.GoroutineDump()})
 			c.Runaway()
 			return
 		}
